@@ -1,0 +1,104 @@
+//! Verification hooks (cargo feature `verif`).
+//!
+//! Nothing in this module is compiled unless the `verif` feature is enabled.
+//! It makes the job layer, the journal restorer and the journal pruner reachable
+//! from an external harness without sockets or a server directory.
+
+use std::path::Path;
+
+use tako::control::ServerRef;
+use tako::gateway::TaskSubmit;
+use tako::{JobId, Set, WorkerId};
+
+use crate::server::Senders;
+use crate::server::autoalloc::create_autoalloc_service;
+use crate::server::event::journal::{JournalReader, JournalWriter};
+use crate::server::event::streamer::EventStreamer;
+use crate::server::restore::StateRestorer;
+use crate::server::state::{State, StateRef};
+use crate::server::tako_events::UpstreamEventProcessor;
+
+/// `Senders` around a socket-less server. The autoalloc process is not running;
+/// its notifications are dropped.
+pub fn make_senders(server_ref: ServerRef, events: EventStreamer) -> Senders {
+    let (autoalloc, _process) = create_autoalloc_service(server_ref.clone(), 1, events.clone());
+    Senders {
+        server_control: server_ref,
+        events,
+        autoalloc,
+    }
+}
+
+/// What `initialize_server` does to connect the core with the job layer.
+pub fn install_event_processor(server_ref: &ServerRef, state_ref: StateRef, senders: Senders) {
+    server_ref.set_client_events(Box::new(UpstreamEventProcessor::new(state_ref, senders)));
+}
+
+pub struct RestoreOutcome {
+    pub job_id_counter: u32,
+    pub worker_id_counter: WorkerId,
+    pub queue_id_counter: u32,
+    pub truncate_size: Option<u64>,
+    pub server_uid: String,
+    pub task_submits: Vec<TaskSubmit>,
+    /// (queue id, has worker resources)
+    pub queues: Vec<(u32, bool)>,
+}
+
+/// The restore part of `start_server`: load the journal, restore the id counter and the jobs.
+/// The returned task submits still have to be handed to `ServerRef::add_new_tasks`.
+pub fn restore(
+    path: &Path,
+    state: &mut State,
+    server_ref: &ServerRef,
+) -> crate::Result<RestoreOutcome> {
+    let mut restorer = StateRestorer::default();
+    restorer.load_event_file(path)?;
+    let server_uid = restorer.take_server_uid();
+    let job_id_counter = restorer.job_id_counter();
+    let worker_id_counter = restorer.worker_id_counter();
+    let queue_id_counter = restorer.queue_id_counter();
+    let truncate_size = restorer.truncate_size();
+    state.restore_state(&restorer);
+    let (task_submits, queues) = restorer.restore_jobs_and_queues(state, server_ref)?;
+    Ok(RestoreOutcome {
+        job_id_counter,
+        worker_id_counter,
+        queue_id_counter,
+        truncate_size,
+        server_uid,
+        task_submits,
+        queues: queues
+            .into_iter()
+            .map(|q| (q.queue_id, q.worker_resources.is_some()))
+            .collect(),
+    })
+}
+
+/// Only the load phase (for probing whether a journal is accepted at all).
+pub fn load_only(path: &Path) -> crate::Result<(u32, WorkerId, u32, Option<u64>, String)> {
+    let mut restorer = StateRestorer::default();
+    restorer.load_event_file(path)?;
+    let uid = restorer.take_server_uid();
+    Ok((
+        restorer.job_id_counter(),
+        restorer.worker_id_counter(),
+        restorer.queue_id_counter(),
+        restorer.truncate_size(),
+        uid,
+    ))
+}
+
+/// The prune step of the journal streaming process (without the rename).
+pub fn prune(
+    input: &Path,
+    output: &Path,
+    live_jobs: &Set<JobId>,
+    live_workers: &Set<WorkerId>,
+) -> anyhow::Result<()> {
+    let mut reader = JournalReader::open(input)?;
+    let mut writer = JournalWriter::create(output)?;
+    crate::server::event::journal::prune_journal(&mut reader, &mut writer, live_jobs, live_workers)?;
+    writer.finish()?;
+    Ok(())
+}
